@@ -28,7 +28,7 @@ pub fn spec() -> Spec {
     real: E1_REAL,
     stub: E1_STUB,
     assumptions: &[
-      "all readers are matched before the first write (late-joiner semantics belong to C07)",
+      "late joiners: a TransientLocal writer owes them its whole history, a Volatile one only the samples written after the match (and a GAP for the rest)",
       "liveness bound 30 s + 2 s per sample of simulated time after the last fault: calibrated on the unchanged tree (worst observed recovery is reported as max.recovery_ms), heartbeat period is 1 s, nack response delay 200 ms, repair pace 20 ms per sample",
       "the DPEventLoop-level 5 s pre-emptive ACKNACK and 4 s cache GC ticks are scheduled by the harness with the periods of rtps/constant.rs",
     ],
@@ -41,6 +41,9 @@ struct RNode {
   reader: LocalReader,
   handed: BTreeMap<i64, Vec<u8>>,
   last_handed: i64,
+  matched: bool,
+  /// samples with sn <= this were written before the match (a Volatile writer owes them to nobody)
+  written_before_match: i64,
 }
 
 pub fn run(tier: &str, ctx: &mut Ctx) -> Check {
@@ -77,21 +80,18 @@ pub fn run(tier: &str, ctx: &mut Ctx) -> Check {
       reader: r,
       handed: BTreeMap::new(),
       last_handed: 0,
+      matched: false,
+      written_before_match: 0,
     });
   }
-  // mutual discovery (what Discovery would have delivered)
-  for rn in &rnodes {
-    let drd = rustdds::verif::discovered_reader(
-      rn.reader.guid_bytes(),
-      TOPIC,
-      TYPE,
-      &rq,
-      &[node_addr(rn.node)],
-      &[],
-    );
-    w.nodes[wix].remote_reader_discovered(drd);
-    let dwd = rustdds::verif::discovered_writer(wguid, TOPIC, TYPE, &wq, &[node_addr(wnode_id)], &[]);
-    w.nodes[rn.ix].remote_writer_discovered(dwd);
+  // mutual discovery (what Discovery would have delivered); some readers join late
+  let mut late: Vec<usize> = vec![];
+  for i in 0..rnodes.len() {
+    if i > 0 && ctx.ch.chance(1, 3) {
+      late.push(i);
+    } else {
+      do_match(&mut w, wix, &mut rnodes[i], wguid, &wq, &rq, 0);
+    }
   }
   w.flush_outbox(ctx)?;
 
@@ -127,13 +127,14 @@ pub fn run(tier: &str, ctx: &mut Ctx) -> Check {
   for _ in 0..n_ops {
     ctx.state(w.total_sent << 16 | w.flights.len() as u64);
     let can_write = (written.len() as u64) < max_writes;
-    let weights: [u64; 6] = [
+    let weights: [u64; 7] = [
       30,                                   // 0 world steps
       if can_write { 25 } else { 0 },       // 1 write
       10,                                   // 2 let time pass
       10,                                   // 3 take
       if w.faults_on { 6 } else { 0 },      // 4 partition toggle
       if w.faults_on { 4 } else { 0 },      // 5 burst loss of a kind toggle
+      if late.is_empty() { 0 } else { 8 },  // 6 a late joiner is matched
     ];
     match ctx.ch.weighted(&weights) {
       0 => {
@@ -219,6 +220,17 @@ pub fn run(tier: &str, ctx: &mut Ctx) -> Check {
           ctx.count("fault.partition");
         }
       }
+      6 => {
+        let i = late.remove(ctx.ch.index(late.len()));
+        // the writer has processed everything written so far
+        w.nodes[wix].writer_command(&lw);
+        w.flush_outbox(ctx)?;
+        let l0 = w.nodes[wix].writer_view(&lw).map_or(0, |v| v.last_sn);
+        do_match(&mut w, wix, &mut rnodes[i], wguid, &wq, &rq, l0);
+        w.flush_outbox(ctx)?;
+        ctx.logf(|| format!("late joiner n{} matched after sn {l0}", rnodes[i].node));
+        ctx.count("op.late_joiner_matched");
+      }
       _ => {
         let k = *ctx.ch.pick(&[
           wire::SM_ACKNACK,
@@ -240,6 +252,12 @@ pub fn run(tier: &str, ctx: &mut Ctx) -> Check {
   // make sure every write reached the writer
   w.nodes[wix].writer_command(&lw);
   w.flush_outbox(ctx)?;
+  for i in late.drain(..) {
+    let l0 = w.nodes[wix].writer_view(&lw).map_or(0, |v| v.last_sn);
+    do_match(&mut w, wix, &mut rnodes[i], wguid, &wq, &rq, l0);
+    ctx.count("op.late_joiner_matched");
+  }
+  w.flush_outbox(ctx)?;
 
   // ---- phase 2: faults stop --------------------------------------------------------------
   w.faults_on = false;
@@ -255,14 +273,14 @@ pub fn run(tier: &str, ctx: &mut Ctx) -> Check {
   while t < t_heal + bound {
     t += 250 * MS;
     w.run_until(t, ctx)?;
-    if converged(&w, wix, &lw, &mut rnodes, &written, wguid, ctx)?.is_none() {
+    if converged(&w, wix, &lw, &mut rnodes, &written, wguid, !tl, ctx)?.is_none() {
       converged_at = Some(t);
       break;
     }
   }
   match converged_at {
     None => {
-      let why = converged(&w, wix, &lw, &mut rnodes, &written, wguid, ctx)?.unwrap();
+      let why = converged(&w, wix, &lw, &mut rnodes, &written, wguid, !tl, ctx)?.unwrap();
       return Err(v(
         "C02/not-converged-after-faults-stopped",
         format!(
@@ -374,6 +392,27 @@ fn take_check(rn: &mut RNode, written: &BTreeMap<i64, Vec<u8>>, wguid: [u8; 16],
 }
 
 /// None = converged; Some(reason) otherwise.
+#[allow(clippy::too_many_arguments)]
+fn do_match(
+  w: &mut World,
+  wix: usize,
+  rn: &mut RNode,
+  wguid: [u8; 16],
+  wq: &rustdds::QosPolicies,
+  rq: &rustdds::QosPolicies,
+  written_before: i64,
+) {
+  const TOPIC: &str = "T";
+  const TYPE: &str = "Blob";
+  let drd = rustdds::verif::discovered_reader(rn.reader.guid_bytes(), TOPIC, TYPE, rq, &[node_addr(rn.node)], &[]);
+  w.nodes[wix].remote_reader_discovered(drd);
+  let dwd = rustdds::verif::discovered_writer(wguid, TOPIC, TYPE, wq, &[node_addr(1)], &[]);
+  w.nodes[rn.ix].remote_writer_discovered(dwd);
+  rn.matched = true;
+  rn.written_before_match = written_before;
+}
+
+#[allow(clippy::too_many_arguments)]
 fn converged(
   w: &World,
   wix: usize,
@@ -381,6 +420,7 @@ fn converged(
   rnodes: &mut [RNode],
   written: &BTreeMap<i64, Vec<u8>>,
   wguid: [u8; 16],
+  volatile: bool,
   ctx: &mut Ctx,
 ) -> Result<Option<String>, crate::ctx::Violation> {
   let wv = w.nodes[wix].writer_view(lw).expect("writer view");
@@ -394,6 +434,9 @@ fn converged(
   for rn in rnodes.iter_mut() {
     take_check(rn, written, wguid, ctx)?;
     for sn in &wv.history {
+      if volatile && *sn <= rn.written_before_match {
+        continue; // a Volatile writer does not owe a late joiner its earlier samples
+      }
       if !rn.handed.contains_key(sn) {
         return Ok(Some(format!(
           "reader node n{} has not been handed sn {sn}, which the writer still holds (writer history {:?}, reader proxy {:?})",
